@@ -407,6 +407,44 @@ def lem_log(x, which='log10'):
     return fn(which, x)
 
 
+def lem_odd(name, x):
+    """odd function (asinh, sinh, tanh, ...): f(-x) = -f(x) by canonical sign of the leading numerator monomial"""
+    if x.is_zero():
+        return C(0)
+    _, c = x.n.lead()
+    dl = x.d.lead()[1] if not x.d.is_const() else x.d.constval()
+    if (c < 0) != (dl < 0):
+        return -fn(name, -x)
+    return fn(name, x)
+
+
+def lem_cut(x):
+    """row (cut-channel) role of a per-channel quantity: outer(x, ones(n))[c, p] = x[c].  Distributes over the
+    algebra, so it is applied atom by atom; constants are unaffected."""
+    def f(a):
+        if a.kind == 'fn' and a.name == 'cut':
+            return Rat.of(a)
+        if a.kind == 'sym' and (a.name.endswith('#scalar') or a.name == 'pi'):
+            return Rat.of(a)
+        return fn('cut', Rat.of(a))
+    return subst_shallow(x, f)
+
+
+def subst_shallow(v, f):
+    """apply f to the top-level atoms of v only (no descent into atom arguments)"""
+    def sp(poly):
+        out = C(0)
+        for k, c in poly.t.items():
+            term = Rat.const(c)
+            for a, e in k:
+                term = term * f(REG[a]).pow(e)
+            out = out + term
+        return out
+    if v.d.is_const():
+        return sp(v.n) * Rat.const(1 / v.d.constval())
+    return sp(v.n) / sp(v.d)
+
+
 def lem_sqrt(x):
     if x.is_const():
         v = x.constval()
@@ -488,6 +526,10 @@ def rebuild(a, nargs):
             return lem_log(nargs[0], n)
         if n == 'sqrt':
             return lem_sqrt(nargs[0])
+        if n in ('asinh',):
+            return lem_odd(n, nargs[0])
+        if n == 'cut' and isinstance(nargs[0], Rat):
+            return lem_cut(nargs[0])
         if n == 'pow':
             return lem_pow(nargs[0], nargs[1])
     return Rat.of(mk_atom(a.kind, a.name, nargs))
